@@ -623,6 +623,9 @@ func RunC17(t *testing.T) {
 		if err != nil {
 			t.Fatal(err)
 		}
+		if r.Engine != "hooks" {
+			return // a case of another part of the property
+		}
 		var c HookCase
 		must(json.Unmarshal(r.Case, &c))
 		_, vs := runHookCase(b, c)
